@@ -29,15 +29,16 @@ theorem encEntry_ok {fk fv : Val → Except Err Json} {p : Val × Val} {q : Stri
   subst h
   exact ⟨hk, hv⟩
 
-/-- members decode to the entries they were made from, no duplicate is met. -/
-theorem decEntries_of_mapM (fk fv : Val → Except Err Json) (gk gv : Json → Except Err Val) :
+/-- members decode to the entries they were made from (values up to `c`, e.g. the identity or
+`canon`), no duplicate is met. -/
+theorem decEntries_of_mapM (fk fv : Val → Except Err Json) (gk gv : Json → Except Err Val) (c : Val → Val) :
     ∀ (es : List (Val × Val)) (ps : List (String × Json)) (acc : List (Val × Val)),
       es.mapM (encEntry fk fv) = .ok ps →
       (∀ p ∈ es, ∀ j, fk p.1 = .ok j → gk j = .ok p.1) →
-      (∀ p ∈ es, ∀ j, fv p.2 = .ok j → gv j = .ok p.2) →
+      (∀ p ∈ es, ∀ j, fv p.2 = .ok j → gv j = .ok (c p.2)) →
       distinctKeys es = true →
       (∀ a ∈ acc, ∀ p ∈ es, a.1.keyEq p.1 = false) →
-      decEntries gk gv ps acc = .ok (acc ++ es)
+      decEntries gk gv ps acc = .ok (acc ++ es.map (fun p => (p.1, c p.2)))
   | [], ps, acc, h, _, _, _, _ => by
     simp at h; subst h; simp [decEntries]
   | p :: es, ps, acc, h, hk, hv, hd, hacc => by
@@ -52,7 +53,7 @@ theorem decEntries_of_mapM (fk fv : Val → Except Err Json) (gk gv : Json → E
       intro a ha
       simpa using hacc a ha p List.mem_cons_self
     simp only [decEntries, h1, ok_bind, hany, Bool.false_eq_true, if_false, h2]
-    have := decEntries_of_mapM fk fv gk gv es ps' (acc ++ [(p.1, p.2)]) hps
+    have := decEntries_of_mapM fk fv gk gv c es ps' (acc ++ [(p.1, c p.2)]) hps
       (fun p' hp' => hk p' (List.mem_cons_of_mem _ hp'))
       (fun p' hp' => hv p' (List.mem_cons_of_mem _ hp')) hd.2
       (by
@@ -101,6 +102,24 @@ theorem keys_nodup_of_mapM (fk fv : Val → Except Err Json) (gk : Json → Exce
       · obtain ⟨p', hp', hg⟩ := ih2 q' hq'
         exact ⟨p', List.mem_cons_of_mem _ hp', hg⟩
 
+/-- Go maps, values decoded up to `c`. -/
+theorem entries_roundtrip_map (fk fv : Val → Except Err Json) (gk gv : Json → Except Err Val) (c : Val → Val)
+    (es : List (Val × Val)) (j : Json)
+    (hk : ∀ p ∈ es, ∀ j, fk p.1 = .ok j → gk j = .ok p.1)
+    (hv : ∀ p ∈ es, ∀ j, fv p.2 = .ok j → gv j = .ok (c p.2))
+    (hr : ∀ p ∈ es, p.1.keyEq p.1 = true)
+    (hd : distinctKeys es = true)
+    (h : encEntries fk fv es = .ok j) :
+    ∃ ps, j = .obj ps ∧ decEntries gk gv ps [] = .ok (es.map (fun p => (p.1, c p.2))) := by
+  rw [encEntries_eq] at h
+  obtain ⟨ps, hps, rfl⟩ := map_eq_ok.mp h
+  obtain ⟨hnd, _⟩ := keys_nodup_of_mapM fk fv gk es ps hps hk hr hd
+  refine ⟨ps, ?_, ?_⟩
+  · rw [objSetAll_of_disjoint [] ps hnd (by simp [keys])]
+    simp
+  · have := decEntries_of_mapM fk fv gk gv c es ps [] hps hk hv hd (by simp)
+    simpa using this
+
 /-- **Go maps round-trip whatever order their entries are visited in.** -/
 theorem entries_roundtrip (fk fv : Val → Except Err Json) (gk gv : Json → Except Err Val)
     (es : List (Val × Val)) (j : Json)
@@ -110,13 +129,7 @@ theorem entries_roundtrip (fk fv : Val → Except Err Json) (gk gv : Json → Ex
     (hd : distinctKeys es = true)
     (h : encEntries fk fv es = .ok j) :
     ∃ ps, j = .obj ps ∧ decEntries gk gv ps [] = .ok es := by
-  rw [encEntries_eq] at h
-  obtain ⟨ps, hps, rfl⟩ := map_eq_ok.mp h
-  obtain ⟨hnd, _⟩ := keys_nodup_of_mapM fk fv gk es ps hps hk hr hd
-  refine ⟨ps, ?_, ?_⟩
-  · rw [objSetAll_of_disjoint [] ps hnd (by simp [keys])]
-    simp
-  · have := decEntries_of_mapM fk fv gk gv es ps [] hps hk hv hd (by simp)
-    simpa using this
+  have := entries_roundtrip_map fk fv gk gv id es j hk hv hr hd h
+  simpa using this
 
 end Hive.SerixJson
